@@ -18,7 +18,7 @@ struct CondenseGuard {     // the condense switch is documented process-wide sta
 // adjacent Text nodes of an in-memory tree are one text node in any XML serialization: merge them before comparing
 inline void mergeTexts(XNode& n) {
     std::vector<XNode> k;
-    for (auto& c : n.kids) { if (c.type == 1 && !k.empty() && k.back().type == 1) k.back().name += c.name; else k.push_back(c); }
+    for (auto& c : n.kids) { if (c.type == 1 && !k.empty() && k.back().type == 1) { k.back().name += c.name; k.back().merged = true; } else k.push_back(c); }
     n.kids.swap(k);
     for (auto& c : n.kids) mergeTexts(c);
 }
@@ -36,7 +36,9 @@ struct XmlCmp {
             if (k.type == 1 && k.name.empty()) continue;                 // an empty Text node has no textual representation
             if (k.type == 1 && allWs(k.name)) {
                 if (cond) continue;                                      // condenses to nothing
-                if (expected && ctx->known(kWsOnly)) { wsKnown = true; continue; }
+                // while the finding is listed a white-space-only text may or may not survive (plain text is dropped by the
+                // parser, a CDATA section is kept): ignore it on both sides
+                if (ctx->known(kWsOnly)) { if (expected) wsKnown = true; continue; }
             }
             v.push_back(&k);
         }
@@ -46,7 +48,11 @@ struct XmlCmp {
         static const char* tn[] = {"elem", "text", "comment", "unknown"};
         if (a.type != b.type) return path + ": node type " + tn[a.type] + " " + show(a.name) + " vs " + tn[b.type] + " " + show(b.name);
         if (a.type == 1) {
-            if (!textEq(a.name, b.name)) {
+            // condense mode trims every text node, so white space at the seam between adjacent text nodes (a CDATA section
+            // followed by text, ...) is not defined: texts merged from several nodes are compared without white space
+            const bool seam = cond && (a.merged || b.merged);
+            auto noWs = [](const std::string& t) { std::string o; for (unsigned char c : t) if (!isWs(c)) o += (char)c; return o; };
+            if (seam ? noWs(a.name) != noWs(b.name) : !textEq(a.name, b.name)) {
                 if (a.name.find("&#x") != std::string::npos && ctx->known(kHexRef)) { hexKnown = true; return ""; }
                 return path + ": text " + show(a.name) + " vs " + show(b.name) + (cond ? " (compared condensed)" : "");
             }
